@@ -499,6 +499,60 @@ example : toSame (.int (.small 9007199254740993#64)) (.f64 ((2 : Int) : Rat)) =
 example : (NC.int (.small 9007199254740993#64)).valid ∧ (NC.f64 ((2 : Int) : Rat)).valid := ⟨trivial, by rfl⟩
 example : stepExactOn .i64ToF64 ((9007199254740993 : Int) : Rat) = false := by rfl
 
+/-! ## kind of a binary operation on untyped constants (checker glue, regenerated)
+
+`foldOpKind`, `foldAsFloat`, `foldResultKind` are regenerated from the both-constants path of
+`typechecker.binaryOp` (the statements that select the kind of the operation and the type of the
+result); `ukCode` gives the `reflect.Kind` of the default type of an untyped kind
+(int < rune(int32) < float64 < complex128).  Go: the kind of a binary operation on untyped
+constants — and with it integer vs. floating-point division — is the LARGER of the two kinds. -/
+
+theorem binop_kind_is_max (u1 u2 : UKind) :
+    foldOpKind true (ukCode u1) (ukCode u2) = ukCode (u1.max u2) ∧
+    foldResultKind false false true (ukCode u1) (ukCode u2) = ukCode (u1.max u2) ∧
+    foldAsFloat true (foldOpKind true (ukCode u1) (ukCode u2)) = !(u1.max u2).isInteger := by
+  cases u1 <;> cases u2 <;> decide
+
+theorem ukOfCode_ukCode (u : UKind) : ukOfCode (ukCode u) = some u := by cases u <;> decide
+
+theorem resultTy_untyped (u1 u2 : UKind) :
+    resultTy false (.untyped u1) (.untyped u2) = .ok (.untyped (u1.max u2)) := by
+  simp only [resultTy, tyCode]
+  rw [(binop_kind_is_max u1 u2).2.1, ukOfCode_ukCode]
+
+/-- the both-constants path on two untyped operands, with the generated kind selection evaluated -/
+theorem sBin_untyped (op : Arith) (u1 u2 : UKind) (a b : CC) :
+    sBin op (.num (.untyped u1) a) (.num (.untyped u2) b) =
+      ((if op == .quo && !(u1.max u2).isInteger then cAsFloatingPoint a else .ok a) >>= fun a' =>
+        cArith op a' b >>= fun r => .ok (.num (.untyped (u1.max u2)) r)) := by
+  have hk := binop_kind_is_max u1 u2
+  have hfold : foldAsFloat (op == .quo) (foldOpKind true (ukCode u1) (ukCode u2)) =
+      (op == .quo && !(u1.max u2).isInteger) := by
+    cases hq : (op == Arith.quo)
+    · rw [hk.1]; simp [foldAsFloat]
+    · exact hk.2.2
+  simp only [sBin, sConvOperands, tyIsUntyped, tyCode, bind, Except.bind, resultTy_untyped, sTyped, hfold]
+  split <;> rfl
+
+theorem except_bind_ok {ε α β : Type} (x : Except ε α) (f : α → Except ε β) (v : β)
+    (h : (x >>= f) = .ok v) : ∃ y, x = .ok y ∧ f y = .ok v := by
+  cases x with
+  | error e => cases h
+  | ok y => exact ⟨y, rfl, h⟩
+
+theorem sBin_kind_is_max (op : Arith) (u1 u2 : UKind) (a b : CC) (ty : Ty) (c : CC)
+    (h : sBin op (.num (.untyped u1) a) (.num (.untyped u2) b) = .ok (.num ty c)) :
+    ty = .untyped (u1.max u2) := by
+  rw [sBin_untyped] at h
+  obtain ⟨a', _, h⟩ := except_bind_ok _ _ _ h
+  obtain ⟨r, _, h⟩ := except_bind_ok _ _ _ h
+  cases h; rfl
+
+-- non-vacuity: 7 / real(2+0i) — an integer constant divided by a floating-point constant held as an
+-- integer — goes through asFloatingPoint, so it is not the integer division
+example : foldAsFloat true (foldOpKind true (ukCode .int) (ukCode .float)) = true := by decide
+example : foldAsFloat true (foldOpKind true (ukCode .rune) (ukCode .int)) = false := by decide
+
 /-! ## non-vacuity and the recorded defects -/
 
 -- the fixed defect of §8 row 11: `MinInt64 / -1` now leaves the int64 path (before the fix the
